@@ -10,7 +10,7 @@ from .e1check import E1Outcome, e1_coverage, finish, run_toktrie_groups
 ASSUMPTIONS = [
     "K13.2: TokTrie::add_bias(r, set, start) for every transition-table acceptor (2 states; 3 on the tiny table) and every start prefix of 1-2 symbolic bytes over the vocabulary families: bit t set <=> t non-empty and (t is a prefix of start, or start is a prefix of t and the acceptor takes the rest byte by byte); has_valid_extensions agrees",
     "E2-13.3: for every state of every exported lexer automaton and a symbolic byte: next_byte == ForcedByte(c) => every other byte and end-of-input are dead; ForcedEOI => every byte is dead (SomeBytes* hints carry no guarantee and are probed by forced_byte)",
-    "K13.1 chop_tokens is NOT decided: it does not fit CBMC (12.9 GB at 400 s on a 4-word vocabulary even with format! stubbed)",
+    "K13.1: chop_tokens as a whole does not fit CBMC (12.9 GB at 400 s on a 4-word vocabulary even with format! stubbed). Decided instead: its token/byte accounting loop, cut out of the current source (between `let chop_bytes = suff.len();` and `unreachable!();`) and run for every combination of 1-4 token lengths in 1..6 and every suffix length: the returned byte count is exactly the length of the dropped tokens, they cover the suffix, and one token fewer would not. The suffix search itself is has_valid_extensions (decided above)",
     "outside the claim: forced_byte's 256-byte probe over the parser, force_bytes, ff_tokens, process_prompt (need the parser state)",
 ]
 
@@ -77,7 +77,7 @@ def run():
     def sel(s):
         n = s["name"]
         return ("_l1" in n or "_l2" in n) and ("k16_3_walk" in n or "hasext" in n)
-    info, fams = run_toktrie_groups("C13", "c13", {"walk", "hasext"}, out, select=sel, extra_specs=None, harness_timeout_s=900)
+    info, fams = run_toktrie_groups("C13", "c13", {"walk", "hasext"}, out, select=sel, extra_specs=None, harness_timeout_s=900, chop=True)
     try:
         st = hint_e2(out, t, sd)
     except RuntimeError as ex:
